@@ -317,6 +317,8 @@ class Net:
         self.after_deliver: Optional[Callable[[Dict[str, Any]], None]] = None
         self.duplicate_all = False    # C16: re-deliver every datagram immediately on the same socket
         self.dup_hook: Optional[Callable[[str], None]] = None
+        self.duplicate_filter: Optional[Callable[[bytes], bool]] = None   # which datagrams get the immediate second delivery
+        self.current_delivery: Optional[Dict[str, Any]] = None   # set while a datagram is being processed by a protocol
 
     # -- topology
     def add_host(self, name: str, ip4: Optional[str], ip6: Optional[str] = None, layout: str = "single") -> SimHost:
@@ -340,7 +342,8 @@ class Net:
         idx = self.tx_count
         self.tx_count += 1
         multicast = dst_ip in (MDNS4, MDNS6)
-        entry = {"i": idx, "t": self.clock.ms(), "host": host.name, "sock": sock.role, "sock_ip": sock.ip, "fd": sock.fileno(),
+        ctx = self.current_delivery
+        entry = {"ctx": None if ctx is None else dict(ctx), "i": idx, "t": self.clock.ms(), "host": host.name, "sock": sock.role, "sock_ip": sock.ip, "fd": sock.fileno(),
                  "src": src, "dst": (dst_ip, dst_port), "data": data, "mcast": multicast, "closing": bool(sock.transport and sock.transport.closing)}
         self.trace.append(entry)
         if host.partitioned:
@@ -413,23 +416,28 @@ class Net:
         if self.on_deliver is not None:
             self.on_deliver(rec)
         proto = sock.protocol
-        if self.duplicate_all:
+        if self.duplicate_all and (self.duplicate_filter is None or self.duplicate_filter(data)):
             # the copy is processed in the same loop callback, exactly as two datagrams sitting in the
             # socket buffer are drained by consecutive recvfrom calls of one _read_ready
+            self.current_delivery = {"copy": False, "data": data, "host": sock.host.name}
             try:
                 proto.datagram_received(data, addr)
             finally:
+                self.current_delivery = {"copy": True, "data": data, "host": sock.host.name}
                 if self.dup_hook:
                     self.dup_hook("begin")
                 try:
                     proto.datagram_received(data, addr)
                 finally:
+                    self.current_delivery = None
                     if self.dup_hook:
                         self.dup_hook("end")
             return
+        self.current_delivery = {"copy": False, "data": data, "host": sock.host.name}
         try:
             proto.datagram_received(data, addr)
         finally:
+            self.current_delivery = None
             if self.after_deliver is not None:
                 self.after_deliver(rec)
 
